@@ -18,7 +18,7 @@ class Part(Symbol):
 
 @dataclass(eq=False)
 class BigPart(Part):
-    pass
+    grade: int = 0
 
 
 @dataclass(eq=False)
@@ -28,6 +28,7 @@ class Box(Symbol):
     parts: List[Part] = field(default_factory=list)
     tags: List[str] = field(default_factory=list)
     weight: int = 0
+    spare: Optional[Part] = None
 
     def __repr__(self):
         return f"{type(self).__name__}({self.label})"
@@ -35,7 +36,7 @@ class Box(Symbol):
 
 @dataclass(eq=False)
 class FancyBox(Box):
-    pass
+    ribbon: str = ""
 
 
 @dataclass(eq=False)
